@@ -623,6 +623,11 @@ bool Instance::configure_tx_txin() {
 
 uint256 Instance::calc_sighash() {
     uint256 hash;
+    if (tx->vin.size() != 1) {
+        // BIP341 signature hashes commit to the spent outputs of all inputs, and only one input transaction is known
+        fprintf(stderr, "cannot generate the signature hash for a transaction with %zu inputs (only single-input transactions are supported)\n", tx->vin.size());
+        exit(1);
+    }
     std::vector<CTxOut> spent_outputs;
     spent_outputs.emplace_back(txin->vout[txin_vout_index]);
     txdata = PrecomputedTransactionData();
